@@ -237,7 +237,7 @@ def _compare(name, spec, res):
                 # vacuity twin
                 if ci == 0 and perms == perm_cfgs[0] and pa:
                     res["twins_run"] += 1
-                    j = next((i for i, (_, p) in enumerate(pa) if p.t), None)
+                    j = max((i for i, (_, p) in enumerate(pa) if p.t), key=lambda i: max(abs(float(c)) for c in pa[i][1].t.values()), default=None)
                     if j is None:
                         res["twins_ok"] += 1
                     else:
